@@ -49,6 +49,8 @@ pub struct Profile {
     pub lease_rounds: usize,
     /// payload lengths vary between 1 and `payload_len + 4` bytes
     pub payload_var: bool,
+    /// ReadOnlyOption::LeaseBased on every node
+    pub lease_read: bool,
     /// fixed values for (max_size_per_msg, max_uncommitted_size) of every node; None = defaults / random
     pub size_knobs: Option<(i64, i64)>,
     /// name of a scripted scenario (phases of the random scheduler under explicit partitions); empty = none
@@ -91,6 +93,7 @@ impl Profile {
             v1: false,
             lease_rounds: 0,
             payload_var: false,
+            lease_read: false,
             size_knobs: None,
             script: String::new(),
         }
@@ -414,6 +417,36 @@ impl Profile {
                 p.proposals = 40;
                 p.max_log = 60;
             }
+            "s_jointrestart" => {
+                p.ids = vec![1, 2, 3, 4];
+                p.voters = vec![1, 2, 3, 4];
+                p.script = "joint_restart".into();
+                p.joint = true;
+                p.w_crash = 0;
+                p.w_partition = 0;
+                p.w_drop = 1;
+                p.proposals = 20;
+                p.max_log = 60;
+            }
+            "s_stalematch" => {
+                p.ids = vec![1, 2, 3, 4, 5];
+                p.voters = vec![1, 2, 3, 4, 5];
+                p.script = "stale_match".into();
+                p.w_crash = 0;
+                p.w_partition = 0;
+                p.w_drop = 1;
+                p.w_dup = 2;
+                p.proposals = 30;
+                p.max_log = 80;
+            }
+            "leaseread" => {
+                p.check_quorum = true;
+                p.lease_read = true;
+                p.reads = 14;
+                p.proposals = 10;
+                p.w_partition = 3;
+                p.w_crash = 1;
+            }
             "s_lagsnap_live" => {
                 p.script = "lag_snap".into();
                 p.w_crash = 0;
@@ -535,6 +568,7 @@ pub fn cluster_cfg(prof: &Profile, rng: &mut StdRng) -> ClusterCfg {
         let mut k = Knobs {
             pre_vote: prof.pre_vote,
             check_quorum: prof.check_quorum,
+            lease_read: prof.lease_read,
             election_tick: 5,
             ..Default::default()
         };
@@ -2206,6 +2240,147 @@ impl Sched {
                     self.frozen.clear();
                     self.force_async.clear();
                     self.run_steps(cl, out, 70);
+                }
+            }
+            "joint_restart" => {
+                // a joint configuration that demotes a voter (learners_next non-empty) is entered explicitly;
+                // while it lasts a node restarts and a lagging node is brought up to date by snapshot
+                let _ = self.until_leader(cl, out, 400);
+                for _ in 0..4 {
+                    let l = match Self::leader_of(cl) {
+                        Some(l) => l,
+                        None => {
+                            self.run_steps(cl, out, 80);
+                            continue;
+                        }
+                    };
+                    let keepc = std::mem::replace(&mut self.conf_left, 0);
+                    self.run_until(cl, out, 150, |cl| {
+                        let a = &cl.nodes[cl.slot(l)];
+                        a.raw.as_ref().map_or(false, |r| r.raft.raft_log.applied == r.raft.raft_log.last_index()) && a.app.outstanding.is_none()
+                    });
+                    let voters: Vec<u64> = cl.nodes[cl.slot(l)].raw.as_ref().unwrap().raft.prs().conf().voters().ids().iter().collect();
+                    let cand: Vec<u64> = voters.iter().copied().filter(|x| *x != l).collect();
+                    if cand.len() < 2 {
+                        let (v1, tr, ch) = self.random_cc(cl);
+                        self.idle_then(cl, out, l, Choice::ProposeConf { n: l, v1, tr, ch });
+                        self.run_steps(cl, out, 120);
+                        self.conf_left = keepc;
+                        continue;
+                    }
+                    let t = *cand.choose(&mut self.rng).unwrap();
+                    let lag = *cand.iter().find(|x| **x != t).unwrap();
+                    if self.rng.gen_bool(0.5) {
+                        self.isolate(&[lag], &ids);
+                    }
+                    self.idle_then(cl, out, l, Choice::ProposeConf { n: l, v1: false, tr: "E".into(), ch: vec![ChV { t: "L".into(), id: t }] });
+                    let joint = self.run_until(cl, out, 200, |cl| {
+                        cl.nodes.iter().filter(|s| s.raw.is_some()).filter(|s| !s.raw.as_ref().unwrap().raft.prs().conf().learners_next().is_empty()).count() >= 2
+                    });
+                    if joint {
+                        let ups: Vec<u64> = cl.nodes.iter().filter(|s| s.raw.is_some() && s.id != lag).map(|s| s.id).collect();
+                        let c = *ups.choose(&mut self.rng).unwrap();
+                        self.run_until(cl, out, 40, |cl| cl.nodes[cl.slot(c)].app.outstanding.is_none());
+                        self.do_choice(cl, out, Choice::Crash { n: c });
+                        self.run_steps(cl, out, 10);
+                        self.do_choice(cl, out, Choice::Restart { n: c, applied: -1 });
+                        self.run_steps(cl, out, 50);
+                        if let Some(l2) = Self::leader_of(cl) {
+                            // the lagging node can only be caught up by a snapshot taken inside the joint configuration
+                            self.run_until(cl, out, 60, |cl| cl.is_up(l2) && cl.nodes[cl.slot(l2)].app.outstanding.is_none());
+                            self.do_choice(cl, out, Choice::MakeSnap { n: l2 });
+                            let k = cl.nodes[cl.slot(l2)].app.applied.min(cl.nodes[cl.slot(l2)].dur.hs.commit);
+                            self.do_choice(cl, out, Choice::Compact { n: l2, k });
+                        }
+                        self.blocked.clear();
+                        self.run_steps(cl, out, 120);
+                    }
+                    self.blocked.clear();
+                    if let Some(l2) = Self::leader_of(cl) {
+                        self.idle_then(cl, out, l2, Choice::ProposeConf { n: l2, v1: false, tr: "A".into(), ch: vec![] });
+                        self.run_steps(cl, out, 90);
+                        if let Some(l3) = Self::leader_of(cl) {
+                            self.idle_then(cl, out, l3, Choice::ProposeConf { n: l3, v1: false, tr: "A".into(), ch: vec![ChV { t: "V".into(), id: t }] });
+                        }
+                        self.run_steps(cl, out, 90);
+                    }
+                    self.conf_left = keepc;
+                }
+            }
+            "stale_match" => {
+                // five voters: a leader's minority tail is acknowledged by one follower and later cut back by a new
+                // leader; the old leader is elected again and works in a minority with another follower
+                let _ = self.until_leader(cl, out, 500);
+                for _ in 0..3 {
+                    let l = match Self::leader_of(cl) {
+                        Some(l) => l,
+                        None => {
+                            self.run_steps(cl, out, 80);
+                            continue;
+                        }
+                    };
+                    let keep = std::mem::replace(&mut self.proposals_left, 0);
+                    self.run_steps(cl, out, 60);
+                    let os = self.others(&ids, l);
+                    let (o, o2) = (os[0], os[1]);
+                    // A: the minority {l, o} accepts three proposals; o acknowledges them
+                    self.isolate(&[l, o], &ids);
+                    for _ in 0..3 {
+                        let p = self.payload();
+                        self.idle_then(cl, out, l, Choice::Propose { n: l, p });
+                    }
+                    let acked = self.run_until(cl, out, 200, |cl| {
+                        cl.nodes[cl.slot(l)].raw.as_ref().map_or(false, |r| {
+                            r.raft.state == raft::StateRole::Leader
+                                && r.raft.prs().get(o).map_or(false, |p| p.matched == r.raft.raft_log.last_index())
+                        })
+                    });
+                    let term0 = cl.nodes[cl.slot(l)].raw.as_ref().map_or(0, |r| r.raft.term);
+                    let old_last = Self::last_of(cl, l);
+                    // B: o rejoins the majority alone; a new leader cuts its tail back
+                    self.isolate(&[l], &ids);
+                    self.frozen = vec![(l, "Tick")];
+                    let cut = acked
+                        && self.run_until(cl, out, 500, |cl| {
+                            cl.nodes[cl.slot(o)].raw.as_ref().map_or(false, |r| r.raft.term > term0 && r.raft.raft_log.last_term() > term0)
+                        });
+                    self.run_steps(cl, out, 40);
+                    // C: the old leader rejoins and catches up
+                    self.frozen.clear();
+                    self.blocked.clear();
+                    self.run_until(cl, out, 300, |cl| {
+                        Self::leader_of(cl).map_or(false, |n| n != l && Self::last_of(cl, l) == Self::last_of(cl, n) && Self::committed_of(cl, l) == Self::last_of(cl, n))
+                    });
+                    if cut && Self::last_of(cl, l) < old_last {
+                        // D: it stands again
+                        for _ in 0..4 {
+                            if Self::is_leader(cl, l) && Self::leader_of(cl) == Some(l) {
+                                break;
+                            }
+                            self.idle_then(cl, out, l, Choice::Campaign { n: l });
+                            self.run_until(cl, out, 80, |cl| Self::is_leader(cl, l) && Self::leader_of(cl) == Some(l));
+                        }
+                        if Self::is_leader(cl, l) && Self::leader_of(cl) == Some(l) {
+                            // E: and works in a minority with another follower
+                            self.isolate(&[l, o2], &ids);
+                            for _ in 0..2 {
+                                let p = self.payload();
+                                self.idle_then(cl, out, l, Choice::Propose { n: l, p });
+                            }
+                            self.run_steps(cl, out, 120);
+                            // F: the majority goes on without them
+                            self.frozen = vec![(l, "Tick"), (o2, "Tick")];
+                            let t1 = cl.nodes[cl.slot(l)].raw.as_ref().map_or(0, |r| r.raft.term);
+                            self.proposals_left = 2;
+                            self.run_until(cl, out, 500, |cl| {
+                                cl.nodes.iter().any(|s| s.id != l && s.id != o2 && s.raw.as_ref().map_or(false, |r| r.raft.state == raft::StateRole::Leader && r.raft.term > t1 && r.raft.raft_log.committed == r.raft.raft_log.last_index()))
+                            });
+                            self.run_steps(cl, out, 60);
+                        }
+                    }
+                    self.clear_script_controls();
+                    self.proposals_left = keep;
+                    self.run_steps(cl, out, 150);
                 }
             }
             "conf_mix" => {
